@@ -168,12 +168,50 @@ class Edit:
         return self.desc + (f' -> {type(self.exc).__name__}' if self.exc else '')
 
 
-def _list_edit(r, w, make: Callable[[], Any], name: str, *, allow_remove_value=None) -> Edit:
-    """Random MutableSequence operation on wrapper w with donors from make()."""
+def _list_edit(r, w, make: Callable[[], Any], name: str, *, allow_remove_value=None, owner=None) -> Edit:
+    """Random MutableSequence operation on wrapper w with donors from make(). owner = (model, attribute) the
+    wrapper was read from (for `model.attr += values` and whole-field assignment)."""
     n = len(w)
     op = r.choice(['append', 'insert', 'pop', 'del', 'set', 'delslice', 'setslice', 'extend', 'clear', 'popinsert',
-                   'setfront', 'insert0', 'setrev']
-                  if n else ['append', 'insert', 'extend', 'extend'])
+                   'setfront', 'insert0', 'setrev', 'setext', 'iadd', 'whole']
+                  if n else ['append', 'insert', 'extend', 'extend', 'iadd'])
+    if op in ('iadd', 'whole') and owner is None:
+        op = 'extend'
+    if op == 'whole' and not (type(w) is props.RepeatedNodeWrapper):
+        op = 'setext'       # whole-field assignment: plain raw node lists only
+    if op == 'setext':          # extended slices that cover the whole list / one end of it, sizes matching
+        s = r.choice([slice(None, None, -1), slice(None, None, -1), slice(None, None, 2), slice(1, None, -1),
+                      slice(None, None, -2), slice(n - 1, None, -1), slice(0, n, 1)])
+        k = len(range(n)[s])
+        e = Edit(f'{name}[{s.start}:{s.stop}:{s.step}] = [new]*{k}')
+        vs = [make() for _ in range(k)]
+        try:
+            w[s] = vs
+        except Exception as x:
+            e.exc = x
+        return e
+    if op == 'iadd':            # model.attr += values: __iadd__ and then the assignment of the result
+        k = r.randrange(0, 3)
+        e = Edit(f'{name} += [new]*{k}')
+        vs = [make() for _ in range(k)]
+        try:
+            setattr(owner[0], owner[1], w.__iadd__(vs))
+        except Exception as x:
+            e.exc = x
+        return e
+    if op == 'whole':           # model.raw_xs = <free-standing wrapper> (a changed deep copy of the current one)
+        e = Edit(f'{name} = changed deepcopy({name})')
+        try:
+            dc = copy.deepcopy(w)
+            c = r.random()
+            if c < 0.4 and len(dc):
+                dc.pop(r.randrange(len(dc)))
+            elif c < 0.8:
+                dc.insert(r.randrange(len(dc) + 1), make())
+            setattr(owner[0], owner[1], dc)
+        except Exception as x:
+            e.exc = x
+        return e
     if op == 'append':
         e = Edit(f'{name}.append(new)')
         v = make()
@@ -475,7 +513,7 @@ def random_edit(r: random.Random, root, *, allow_comments: bool = True, focus=No
                     e.exc = x
                 return e
             indent = cur._get_indent()
-            return _list_edit(r, cur, lambda: make_meta_item(r, indent), full)
+            return _list_edit(r, cur, lambda: make_meta_item(r, indent), full, owner=(m, name))
         if isinstance(cur, meta_item_internal.RepeatedRawMetaItemWrapper):
             indent = '    '
             first = next(iter(cur), None)
@@ -483,14 +521,14 @@ def random_edit(r: random.Random, root, *, allow_comments: bool = True, focus=No
                 indent = first.indent
             elif isinstance(m, models.Posting):
                 indent = m.indent + '    '
-            return _list_edit(r, cur, lambda: make_meta_item(r, indent), full)
+            return _list_edit(r, cur, lambda: make_meta_item(r, indent), full, owner=(m, name))
         # --- string views (tags, links, currencies …)
         if isinstance(cur, vprops.RepeatedValueWrapper) and not isinstance(cur, vprops.RepeatedFilteredNodeWrapper):
             rt = cur._raw_type if isinstance(cur._raw_type, type) else cur._raw_type[0]
             samp = TOKEN_SAMPLERS.get(rt.__name__)
             if samp is None:
                 continue
-            return _list_edit(r, cur, lambda: samp(r), full)
+            return _list_edit(r, cur, lambda: samp(r), full, owner=(m, name))
         # --- node lists (filtered or raw)
         if isinstance(cur, (vprops.RepeatedFilteredNodeWrapper, props.RepeatedNodeWrapper)):
             if isinstance(cur, vprops.RepeatedFilteredNodeWrapper):
@@ -512,7 +550,7 @@ def random_edit(r: random.Random, root, *, allow_comments: bool = True, focus=No
                 mk = lambda: make_node(r.choice(cands), r)
             if not allow_comments and 'with_comments' in name:
                 continue
-            return _list_edit(r, cur, mk, full)
+            return _list_edit(r, cur, mk, full, owner=(m, name))
         # --- optional value properties
         if isinstance(prop, (vprops.optional_string_property, vprops.optional_decimal_property,
                              vprops.optional_date_property, vprops.optional_indented_string_property)):
